@@ -13,6 +13,20 @@ CLAIMS = {
    note="trusted: pyvc engine + numpy/builtin axioms; fp-relerr standard model (no overflow, ints < 2^53); the record()-level clauses "
         "(clock advance, SCANLEN/PKTSTOP) are covered by the record contract shared with C02/C04 when present, else bounded only",
    technique="contract-based deductive verification: AST->z3 VC generation over the real functions (int + fp-relerr modes), cvc5 second opinion; bounded native replay"),
+ 'C05': dict(cat='proof', ref='DESIGN.md 2/C05',
+   text="The frame invariant (uniform strictly increasing fs from fmin to fmax, fch1 per orientation, ts=i*dt, derived quantities) is a "
+        "postcondition of the real Frame.__init__/from_data/from_backend_params proved at a symbolic channel/row for all sizes and both "
+        "orientations; get_index nearest-channel and the index round trip (fp-relerr, fmin/df<=2^40, fchans<=2^26) are discharged; "
+        "opposite-orientation frames have equal axes over the reals. Bounded native probe round-trips every channel in floats.",
+   note="trusted: pyvc engine, np.linspace/np.round axioms, real-mode arithmetic; 'identical injected data' follows from C01's postcondition mentioning only fs/ts",
+   technique="contract-based deductive verification (AST->z3 VCs, arrays as index functions, fp-relerr for the round trip); bounded native replay"),
+ 'C17': dict(cat='proof', ref='DESIGN.md 2/C17',
+   text="get_slice, dedrift (row loop with an inductive invariant and a rounding-monotonicity lemma) and integrate/spectrum/timeseries are "
+        "symbolically executed from the real source; every pixel/axis entry of the result equals the property's formula at a symbolic "
+        "index, rates leaving no channels raise ValueError exactly when round(|d|*T*dt/df) >= fchans, derived frames inherit orientation, "
+        "resolutions, start time and source name and hold a copy of the data. Bounded native reference loops replay the clauses.",
+   note="trusted: pyvc engine, numpy axioms, Sum extensionality; sigma-clip normalisation branch and attached blimpy Waterfall (C03) not verified here",
+   technique="contract-based deductive verification (AST->z3/cvc5 VCs with loop invariant + lemma); bounded native replay"),
 }
 NA_REASON = "not yet built in this session (see DESIGN.md build order)"
 
